@@ -42,8 +42,35 @@ def run(ctx, rng, k, cancel_prob=0.0, max_polls=40):
                   sched={nm: rng.random() < 0.85 for nm in names})
     S.WORLD.poll_code = "OK"
     S.WORLD.poll_reports = []
-    mon = {"C18": [], "C07": [], "C12": [], "C05": []}
-    st = {"polls": 0, "cancel_at": None, "nontrivial": False, "cancel_calls": 0}
+    mon = {"C18": [], "C07": [], "C12": [], "C05": [], "C01": []}
+    st = {"polls": 0, "cancel_at": None, "nontrivial": False, "cancel_calls": 0, "seen_events": 0}
+    # C01 at the level of the staged study: the parents of an instance are read
+    # from the execution graph's adjacency table (what `maestro status` and the
+    # failure propagation use), not from the gating sets the launcher consults
+    parents = {nm: [] for nm in names}
+    for src, dsts in dag.adjacency_table.items():
+        for d in dsts:
+            if src != "_source" and d in parents:
+                parents[d].append(src)
+    succeeded = set()
+
+    def c01_scan():
+        # one poll = one status query (which may resolve parents) followed by the
+        # launches, so the ledger is read before this poll's launches are judged
+        for jid, state in S.WORLD.ledger.items():
+            if state == "FINISHED":
+                succeeded.add(S.WORLD.job_owner[jid])
+        evs = S.WORLD.all_events
+        for ev in evs[st["seen_events"]:]:
+            if ev[0] in ("submit", "local") and ev[2] == "main":
+                missing = [p_ for p_ in parents.get(ev[1], []) if p_ not in succeeded]
+                if missing:
+                    mon["C01"].append(("launch-after-deps",
+                                       "study-level: %s launched at poll %d while its parents %s had not succeeded"
+                                       % (ev[1], st["polls"], missing)))
+            if ev[0] == "local" and ev[3] == "ok":
+                succeeded.add(ev[1])
+        st["seen_events"] = len(evs)
     pkl = os.path.join(root, "%s.pkl" % study.name)
     lock = os.path.join(root, ".cancel.lock")
     fair_from = rng.randint(2, 12)
@@ -51,6 +78,7 @@ def run(ctx, rng, k, cancel_prob=0.0, max_polls=40):
     def hook(_t):
         st["polls"] += 1
         k_ = st["polls"]
+        c01_scan()
         # ---- what the conductor left on disk after this poll
         try:
             snap = ExecutionGraph.unpickle(pkl)
@@ -115,6 +143,7 @@ def run(ctx, rng, k, cancel_prob=0.0, max_polls=40):
     finally:
         cmod.sleep = saved
     # ---- after the conductor returned
+    c01_scan()
     if st["cancel_at"] is not None and ret not in ("NONTERMINATION",):
         if not any(ev[0] == "cancel" for ev in S.WORLD.all_events):
             # the request may have arrived after the last poll: only then is it unseen
